@@ -10,9 +10,11 @@ import (
 	"net/http"
 	"net/http/httputil"
 	"os"
+	"os/exec"
 	"reflect"
 	"strings"
 	"sync"
+	"sync/atomic"
 	"time"
 
 	"github.com/google/inverting-proxy/agent/utils"
@@ -370,6 +372,10 @@ type uploadCases struct {
 // uploadDriver: C06. TLC-enumerated fault scripts x response sizes against the real forwarder.
 func uploadDriver(a *Args) {
 	res := a.Res
+	if a.Mode == "stress-child" {
+		uploadStressChild()
+		return
+	}
 	var cases uploadCases
 	b, err := os.ReadFile(a.Cases)
 	if err != nil || json.Unmarshal(b, &cases) != nil {
@@ -445,6 +451,29 @@ func uploadDriver(a *Args) {
 				}
 			}
 		}
+	}
+	// concurrent forwarders (child process, no trace): state shared between forwarders must not let one
+	// upload carry another's bytes
+	{
+		hx.Reset("upload-stress", "upload-stress")
+		cmd := exec.Command(hx.Bin("vdrive"), "-mode", "stress-child", "-out", os.DevNull, "upload")
+		cmd.Env = append(os.Environ(), "VERIF_TRACE=")
+		out, err := cmd.CombinedOutput()
+		var sum struct {
+			Runs, Acked, Corrupt, Blocked, Refused int
+			Example                                string
+		}
+		parsed := false
+		for _, ln := range strings.Split(string(out), "\n") {
+			if strings.HasPrefix(ln, "STRESS ") {
+				parsed = json.Unmarshal([]byte(strings.TrimPrefix(ln, "STRESS ")), &sum) == nil
+			}
+		}
+		if err != nil || !parsed {
+			res.Note("upload stress child failed (%v): %s", err, headOf(out, 1500))
+		}
+		hx.Emit("UploadStress", "ok", err == nil && parsed, "runs", sum.Runs, "acked", sum.Acked, "corrupt", sum.Corrupt, "blocked", sum.Blocked, "refused", sum.Refused, "example", sum.Example)
+		res.Case("stress:16-forwarders", map[string]interface{}{"runs": sum.Runs, "acked": sum.Acked, "corrupt": sum.Corrupt})
 	}
 	// gated replay of the Upload attack counterexample (StaleReader): attempt 1 is failed before any body
 	// byte exists, so its transport writer stays parked in the source read; the reader of attempt 2 is held
@@ -730,4 +759,64 @@ func streamAgent(a *Args, chunkings [][]int) {
 		mu.Unlock()
 		res.Case(fmt.Sprintf("agent:%v", sizeClasses(c)), map[string]interface{}{"mode": "agent binary + ReverseProxy", "chunks": c})
 	}
+}
+
+// uploadStressChild: 16 response forwarders at a time, each against its own upload endpoint that
+// fails the first attempt once the whole body has arrived (5xx or reset - no attempt is failed while
+// its body is still streaming) and acknowledges the retry. Every acknowledged upload must be the
+// forwarder's own response. Runs in a child process without a trace; prints one summary line.
+func uploadStressChild() {
+	const workers, rounds = 16, 30
+	var runs, acked, corrupt, blocked, refused int64
+	var example atomic.Value
+	var wg sync.WaitGroup
+	for g := 0; g < workers; g++ {
+		wg.Add(1)
+		go func(g int) {
+			defer wg.Done()
+			h := handlerScript{fmt.Sprintf("stress%d", g), []int{90 + 113*g}, g%2 == 0}
+			if g%3 == 0 {
+				h.Pieces = []int{40 + 7*g, 300 + 29*g}
+			}
+			fs := newFaultServer(nil, nil)
+			ok, _, _ := runForwarder(fs.url(), h, fmt.Sprintf("sref-%d", g), nil)
+			fs.close()
+			if !ok || len(fs.acked) != 1 {
+				example.Store(fmt.Sprintf("reference run of %s failed", h.Name))
+				atomic.AddInt64(&blocked, 1)
+				return
+			}
+			ref := fs.acked[0]
+			for i := 0; i < rounds; i++ {
+				kind := []string{"5xx-keep", "5xx-close", "reset"}[(g+i)%3]
+				fs := newFaultServer([]upStep{{kind, "end"}, {"ack", "end"}}, ref)
+				ok, bl, _ := runForwarder(fs.url(), h, fmt.Sprintf("sreq-%d-%d", g, i), nil)
+				time.Sleep(time.Millisecond)
+				fs.close()
+				atomic.AddInt64(&runs, 1)
+				fs.mu.Lock()
+				got := fs.acked
+				fs.mu.Unlock()
+				switch {
+				case bl:
+					atomic.AddInt64(&blocked, 1)
+				case len(got) == 0:
+					atomic.AddInt64(&refused, 1) // gave up: allowed (not acknowledged)
+					_ = ok
+				default:
+					atomic.AddInt64(&acked, 1)
+					for _, a := range got {
+						if same, why := sameUpload(a, ref); !same {
+							atomic.AddInt64(&corrupt, 1)
+							example.Store(fmt.Sprintf("%s round %d (%s@end, ack@end): %s", h.Name, i, kind, why))
+						}
+					}
+				}
+			}
+		}(g)
+	}
+	wg.Wait()
+	ex, _ := example.Load().(string)
+	b, _ := json.Marshal(map[string]interface{}{"Runs": runs, "Acked": acked, "Corrupt": corrupt, "Blocked": blocked, "Refused": refused, "Example": ex})
+	fmt.Println("STRESS " + string(b))
 }
